@@ -570,6 +570,14 @@ func (f *Field) applyOptions(opt FieldOptions) error {
 		f.options.TimeQuantum = ""
 		f.options.Keys = opt.Keys
 	case FieldTypeInt:
+		// A meta file without a bit depth is how loadMeta recognises a field
+		// written in the v1 BSI format (base = min). A field of the current
+		// format must therefore never be saved with a bit depth of 0, or it
+		// would be taken for a v1 field on the next open and its base moved
+		// from 0 to min, changing every stored value.
+		if opt.BitDepth == 0 {
+			opt.BitDepth = 1
+		}
 		f.options.Type = opt.Type
 		f.options.CacheType = CacheTypeNone
 		f.options.CacheSize = 0
